@@ -338,14 +338,8 @@ fn small(case: &SmallCase, obs: &mut Obs) -> PropResult {
 	let mut model = class_from_stream(&case.stream, 4, 40);
 	let shared = crate::classfile::gen::share_bsms(&mut model, case.share);
 	obs.label_if(shared > 0, "dynamic_sites_sharing_a_bootstrap_method");
-	if let Some(size) = crate::classfile::gen::add_big_attribute(&mut model, case.big) {
-		obs.label(if size > 65535 { "attribute_payload>65535" } else { "attribute_payload<=65535" });
-	}
-	if let Some(table) = crate::classfile::gen::inflate_table(&mut model, case.big) {
-		obs.label(format!("table_with_300_entries:{table}"));
-	}
-	if let Some(n) = crate::classfile::gen::add_long_string(&mut model, case.big) {
-		obs.label(if n > 32767 { "utf8_constant>32767_bytes" } else { "utf8_constant=32767_bytes" });
+	for l in crate::classfile::gen::apply_big(&mut model, case.big, 256) {
+		obs.label(l);
 	}
 	let enc = match encode(&model, &case.ch) {
 		Ok(e) => e,
